@@ -60,7 +60,8 @@ def _subsets(tier):
 
 def tasks(tier):
     ts = []
-    idsets = [['p1', 'p2'], ['a.b', 'a'], ['x.xml.y', 'x']]
+    # the last set: two ids whose order differs from the order of their image file names ('a.1.jpg' < 'a.jpg' but 'a' < 'a.1') behind a page that completes first
+    idsets = [['p1', 'p2'], ['a.b', 'a'], ['x.xml.y', 'x'], ['0', 'a.1', 'a']]
     if tier != 'quick':
         idsets += [['p1', 'p2', 'p3'], ['q.jpg.r', 'q'], ['m.logits', 'm']]
     for kinds in _subsets(tier):
